@@ -391,6 +391,9 @@ pub struct WorkerArgs {
     pub deadline_s: u64,
 }
 
+/// Unwind payload used to leave a generator once the wall budget is used up.
+struct CapReached;
+
 pub fn run_worker(prop: &dyn Prop, args: WorkerArgs) -> WorkerReport {
     install_crash_handlers();
     start_watchdog(prop.case_budget_s());
@@ -419,6 +422,12 @@ pub fn run_worker(prop: &dyn Prop, args: WorkerArgs) -> WorkerReport {
         let idx = gen_index;
         gen_index += 1;
         if rep.capped {
+            // the wall budget is used up: leave the generator as well (some spaces take
+            // minutes just to enumerate); caught right around `prop.generate` below
+            std::panic::resume_unwind(Box::new(CapReached));
+        }
+        if idx % 65536 == 0 && idx > 0 && started.elapsed() > deadline {
+            rep.capped = true;
             return;
         }
         let h = hash_str(&case.key) ^ fnv(case.fam.as_bytes());
@@ -521,7 +530,11 @@ pub fn run_worker(prop: &dyn Prop, args: WorkerArgs) -> WorkerReport {
             }
         }
     };
-    prop.generate(args.tier, &mut sink);
+    if let Err(p) = std::panic::catch_unwind(std::panic::AssertUnwindSafe(|| prop.generate(args.tier, &mut sink))) {
+        if p.downcast_ref::<CapReached>().is_none() {
+            std::panic::resume_unwind(p);
+        }
+    }
     rep.generated = gen_index;
     rep.nontrivial_distinct = nontrivial.len() as u64 + env.bulk_nontrivial;
     rep.evaluations += env.bulk_evals;
